@@ -177,6 +177,25 @@ def _forwards_param_as_ext(fn: ast.FunctionDef, call: ast.Call, param: str) -> b
                 for n in ast.walk(fn)))
 
 
+def _id_types_calls_only(fn: ast.AST, names) -> typing.List[str]:
+    out = []
+    for c in ast.walk(fn):
+        if isinstance(c, ast.Call) and isinstance(c.func, ast.Attribute) and c.func.attr in names:
+            v = None
+            for kw in c.keywords:
+                if kw.arg == 'id_type':
+                    v = kw.value
+            if v is None and len(c.args) > 1:
+                v = c.args[1]
+            if v is None:
+                out.append('any')
+            elif isinstance(v, ast.Constant) and isinstance(v.value, str):
+                out.append(v.value)
+            else:
+                raise Unsupported('identifier type is not a string constant')
+    return out
+
+
 def _coq_str(s: str) -> str:
     return '[' + '; '.join(str(ord(c)) for c in s) + ']'
 
@@ -250,6 +269,23 @@ def c11_scan():
                 raise Unsupported('%s filter_includes is not IncludeGenerator(language, ...).generate_include_filepart_list(language.extension, sort)' % rel)
             keys_inc.append(key_prop)
         fwd_inc = bool(c2) and _forwards_param_as_ext(incl, c2[0], 'output_extension')
+        # Python refers to a type through its package (filter_imports) and module path (filter_full_reference_name): the identifier
+        # types these strop the namespace components with (directories are stropped with "path")
+        pym = gen.parse_repo('src/nunavut/lang/py/__init__.py')
+        py_ids = []
+        for fname in ('filter_imports', 'filter_full_reference_name'):
+            fn = shape_pin._find(pym, fname)
+            got = _id_types_calls_only(fn, ('filter_id',))
+            # functools.partial(filter_id, language) applied by map(): the module-level filter_id with its default id type
+            for c in ast.walk(fn):
+                if isinstance(c, ast.Call) and isinstance(c.func, ast.Attribute) and c.func.attr == 'partial' and c.args \
+                        and isinstance(c.args[0], ast.Name) and c.args[0].id == 'filter_id':
+                    if len(c.args) > 2 or c.keywords:
+                        raise Unsupported('partial(filter_id, ...) with an explicit identifier type')
+                    got.append('any')
+            if not got:
+                raise Unsupported('%s strops nothing' % fname)
+            py_ids += got
         # explicit stropping arguments anywhere in the path mechanism (both chains then use Language.enable_stropping)
         strop_over = 0
         for fn in (add_dt, incl, mk, nsl, init):
@@ -284,6 +320,8 @@ def c11_scan():
     text += 'Definition scan_ext_forwarded_include : bool := %s.\n' % ('true' if fwd_inc else 'false')
     text += '(* explicit `stropping` arguments in the path mechanism (0: both chains use Language.enable_stropping of the language passed) *)\n'
     text += 'Definition scan_stropping_overrides : nat := %d.\n' % strop_over
+    text += '(* identifier types with which lang/py filter_imports / filter_full_reference_name strop the namespace components of a reference *)\n'
+    text += 'Definition scan_py_reference_id_types : list str := [%s].\n' % '; '.join(_coq_str(k) for k in py_ids)
     gen.write_if_changed(out, text)
     return True, 'ok (%d stropping calls: %s; extension keys %s / %s)' % (len(ids), ','.join(ids), key_out, ','.join(keys_inc))
 
